@@ -71,6 +71,24 @@ def run(tier, seed, pid=PID, flavour='plain', n=None, maxpop=2000):
             rt = 'FREQ=%s;UNTIL=%04d%02d%02dT%02d%02d%02dZ' % ((freq,) + tuple(until[:6]))
             c = fam(nf, (y, m, d, h, mi, 0), rt, zn); c['until'] = rrgen.inst(tuple(until[:6])); c['maxpop'] = 8000 if freq == 'HOURLY' else 2000
             cases.append(c); nf += 1
+    # yearly Easter rules whose offsets reach into the neighbouring years (candidates of one period are not in time order then), DTSTART
+    # swept day by day through the window between this year's early and last year's late offset: nothing may come out before DTSTART
+    def easter(y):
+        a = y % 19; b, c = divmod(y, 100); d, e = divmod(b, 4); f = (b + 8) // 25; g = (b - f + 1) // 3; h = (19 * a + b - d - g + 15) % 30
+        i, k = divmod(c, 4); l = (32 + 2 * e + 2 * i - h - k) % 7; m = (a + 11 * h + 22 * l) // 451
+        mo, dy = divmod(h + l - 7 * m + 114, 31); return D.date(y, mo, dy + 1)
+    for offs in ([-60, 300], [-100, 0, 280], [-330, 30], [-200, 200], [-366, 0, 366]):
+        for _ in range(6 if tier == 'thorough' else 2):
+            y = rnd.randint(1950, 2060)
+            lo = easter(y) + D.timedelta(min(offs)); hi = easter(y - 1) + D.timedelta(max(offs))
+            a, b = min(lo, hi), max(lo, hi)
+            for dd in range(-2, (b - a).days + 3):
+                d0 = a + D.timedelta(dd)
+                ds = (d0.year, d0.month, d0.day, 9, 0, 0) if rnd.random() < 0.5 else (d0.year, d0.month, d0.day)
+                rt = 'FREQ=YEARLY;BYEASTER=%s' % ','.join(map(str, offs)) + rnd.choice(['', ';COUNT=150', ';COUNT=70'])
+                c = fam(nf, ds, rt); c['maxpop'] = 200
+                if 'COUNT' in rt: c['count'] = int(rt.split('COUNT=')[1])
+                cases.append(c); nf += 1
     nsl = vlib.NCPU; per = -(-len(cases) // nsl)
     env_asan = flavour == 'asan'
     if env_asan:
